@@ -19,6 +19,7 @@ Leg container.
 from __future__ import annotations
 
 import ast
+import copy
 import re
 
 from ..core import astutil as A
@@ -67,6 +68,11 @@ class FuseInterp:
         raise AnalysisError(f"cannot normalise {self.fi.qualname} at {self.fi.where(node)}: {why}: {A.short(node)}")
 
     def is_swapped_charges(self, node):
+        if isinstance(node, ast.Name) and node.id in getattr(self, "swapped_names", ()):
+            return True
+        return self._is_swapped_charges(node)
+
+    def _is_swapped_charges(self, node):
         # charges.swapaxes(1, 2) | np.swapaxes(charges, 1, 2) | charges.transpose(0, 2, 1)
         if isinstance(node, ast.Call):
             nm = A.call_name(node)
@@ -166,6 +172,10 @@ class FuseInterp:
                     self.err(st, "returns None")
                 ret = self.ev(st.value)
                 break
+            if isinstance(st, ast.Assign) and len(st.targets) == 1 and isinstance(st.targets[0], ast.Name) and self._is_swapped_charges(st.value):
+                # a temporary for charges.swapaxes(1, 2)
+                self.swapped_names = set(getattr(self, "swapped_names", ())) | {st.targets[0].id}
+                continue
             if isinstance(st, ast.If) and not st.orelse and st.body and isinstance(st.body[-1], ast.Return) and len(st.body) == 1 \
                     and st.body[0].value is not None:
                 # a shortcut `if <case>: return <expr>`: the value it returns is a result of fuse like any other
@@ -196,6 +206,20 @@ class FuseInterp:
                     self.version[t.id] = self.version.get(t.id, 0) + 1
                     continue
                 if isinstance(t, ast.Subscript):
+                    # a store through a view of one column: `col = x[:, j]; col[...] = f(col)` writes x[:, j] (basic indexing is a view)
+                    if isinstance(t.value, ast.Name) and t.value.id in self.temps and isinstance(self.temps[t.value.id][0], ast.Subscript) \
+                            and self.col_index(self.temps[t.value.id][0]) is not None and (
+                                (isinstance(t.slice, ast.Constant) and t.slice.value is Ellipsis) or
+                                (isinstance(t.slice, ast.Slice) and t.slice.lower is None and t.slice.upper is None and t.slice.step is None)):
+                        view_name = t.value.id
+                        view_expr = self.temps[view_name][0]
+
+                        class _V(ast.NodeTransformer):
+                            def visit_Name(self, n_):
+                                return copy.deepcopy(view_expr) if n_.id == view_name and isinstance(n_.ctx, ast.Load) else n_
+                        st = copy.copy(st)
+                        st.value = _V().visit(copy.deepcopy(st.value))
+                        t = copy.deepcopy(view_expr)
                     ci = self.col_index(t)
                     if ci is None or ci[0] not in self.env:
                         self.err(st, "store is not x[:, j] = ... on the charge matrix")
@@ -690,6 +714,20 @@ def check_leg(chk):
                                   args=[ast.GeneratorExp(elt=n.test, generators=[ast.comprehension(target=lp.target, iter=lp.iter, ifs=[], is_async=0)])])
                 ast.fix_missing_locations(n.test)
                 n._loop_guard = lp
+            # the seen-set idiom:  seen = set(); for x in X: if x in seen: raise; seen.add(x)   ==   len(set(X)) != len(X)
+            if isinstance(lp, ast.For) and len(lp.body) == 2 and lp.body[0] is n and not lp.orelse and not n.orelse and isinstance(lp.target, ast.Name) \
+                    and isinstance(n.test, ast.Compare) and len(n.test.ops) == 1 and isinstance(n.test.ops[0], ast.In) \
+                    and isinstance(n.test.left, ast.Name) and n.test.left.id == lp.target.id and isinstance(n.test.comparators[0], ast.Name):
+                sname = n.test.comparators[0].id
+                add = lp.body[1]
+                fresh = [v_ for st_, v_, k_ in binds.get(sname, []) if v_ is not None]
+                if isinstance(add, ast.Expr) and isinstance(add.value, ast.Call) and A.text(add.value.func) == f"{sname}.add" and len(add.value.args) == 1 \
+                        and A.text(add.value.args[0]) == lp.target.id and len(fresh) == 1 and A.text(fresh[0]) == "set()":
+                    import copy as _copy
+                    n = _copy.copy(n)
+                    n._loop_guard = lp
+                    guards.setdefault("duplicates", []).append((n, "t" in sources(lp.iter), f"seen-set scan over `{A.text(lp.iter)}`"))
+                    continue
             cat, ok, detail = classify_guard(n.test, inl, sources)
             if cat is None:
                 unknown.append((n, detail))
@@ -775,8 +813,15 @@ def check_leg(chk):
     # the canonical test compares against the group's own normal form with the leg's signature twice
     fuse_calls = [c for c in A.calls(fn) if A.callee_attr(c) == "fuse"]
     ok = False
+    def _sig(e):
+        """`self.s`, through a local (`s = int(self.s)`) and an int() conversion"""
+        e = inl.expand(e) if isinstance(e, ast.Name) else e
+        while isinstance(e, ast.Call) and A.call_name(e) == "int" and len(e.args) == 1:
+            e = e.args[0]
+        return A.text(e)
     for c in fuse_calls:
-        if len(c.args) == 3 and A.text(c.args[1]) in ("(self.s,)", "[self.s]") and A.text(c.args[2]) == "self.s":
+        if len(c.args) == 3 and isinstance(c.args[1], (ast.Tuple, ast.List)) and len(c.args[1].elts) == 1 and _sig(c.args[1].elts[0]) == "self.s" \
+                and _sig(c.args[2]) == "self.s":
             ok = True
         elif len(c.args) == 3 and A.text(c.args[1]) in ("(1,)", "[1]") and A.neg_const(c.args[2]) == 1:
             ok = True
@@ -861,6 +906,13 @@ def check_leg(chk):
             why = f"s={A.text(sk) if sk is not None else '<inherited from self>'}"
             lk = A.kwarg(c_, "legs")
             okl = lk is not None and ("conj" in A.text(A.Inliner(mc.node).expand(lk)))
+            if lk is not None and not okl:
+                # the sub-legs collected by a loop: `acc = []; for leg in self.legs: acc.append(leg.conj())` ... legs=tuple(acc)
+                for nm_ in [x.id for x in ast.walk(lk) if isinstance(x, ast.Name)]:
+                    for ap in ast.walk(mc.node):
+                        if isinstance(ap, ast.Call) and isinstance(ap.func, ast.Attribute) and ap.func.attr in ("append", "extend") \
+                                and isinstance(ap.func.value, ast.Name) and ap.func.value.id == nm_ and ap.args and "conj" in A.text(ap.args[0]):
+                            okl = True
             chk.verdict("G6", (mc, c_), "LegMeta.conj conjugates its sub-legs", True if okl else False, "LegMeta.conj does not conjugate the legs it is fused from")
         chk.verdict("G6", (mc, mrets[0] if mrets else mc.node), f"LegMeta.conj returns the dual: {why}", True if okm else False,
                     f"LegMeta.conj: the returned meta-fused leg has {why}, not s=-self.s: conj() of a meta-fused leg is not the dual space "
